@@ -21,6 +21,7 @@ import (
 
 const (
 	MaxSlots = 4096
+	maxWait  = 8 // communication cases of one select
 
 	stFree     = 0
 	stEmbryo   = 1 // Spawn() done, `go` statement not yet executed
@@ -99,7 +100,7 @@ type SchedStats struct {
 	SemaFull     int64  `json:"sema_full"` // a Send found its channel full
 	RetryRounds  int64  `json:"retry_rounds,omitempty"`
 	Rendezvous   int64  `json:"rendezvous,omitempty"` // unbuffered channel hand-offs
-	Hash         uint64 `json:"hash"`      // FNV over (from,to,site) of every hand-over
+	Hash         uint64 `json:"hash"`                 // FNV over (from,to,site) of every hand-over
 	Truncated    bool   `json:"decisions_truncated,omitempty"`
 	Abort        int    `json:"abort,omitempty"`
 }
@@ -142,11 +143,13 @@ var (
 	stats     SchedStats
 
 	// channel rendezvous registry (unbuffered channels): what a blocked task waits for
-	slotWaitCh  [MaxSlots]uintptr
-	slotWaitDir [MaxSlots]int8
+	slotWaitCh  [MaxSlots][maxWait]uintptr // what a blocked task waits for (a select waits for several)
+	slotWaitDir [MaxSlots][maxWait]int8
+	slotWaitN   [MaxSlots]int32
 	slotWaitSeq [MaxSlots]int64
-	slotCommit  [MaxSlots]bool
+	slotCommit  [MaxSlots]int32 // -1, or the index of the wait entry a partner committed to
 	waitSeq     int64
+	selRand     Rand // choice among the ready cases of a select
 	// consecutive block() calls since the last event that can unblock somebody
 	sinceProgress int64
 
@@ -181,9 +184,10 @@ func Start(cfg *SchedConfig) {
 	for i := range slotState {
 		slotState[i] = stFree
 		slotBegun[i] = false
-		slotWaitCh[i] = 0
-		slotCommit[i] = false
+		slotWaitN[i] = 0
+		slotCommit[i] = -1
 	}
+	selRand = Rand{s: mix64(cfg.PrioSeed ^ cfg.RWSeed*0x9e3779b97f4a7c15 ^ 0x73656c656374)}
 	waitSeq, sinceProgress = 0, 0
 	hiSlot = 1
 	for i := range wgKeys {
@@ -761,7 +765,7 @@ func TaskEnd(slot int32) {
 		abort(AbortInternal)
 	}
 	slotState[slot] = stFree
-	slotWaitCh[slot] = 0
+	slotWaitN[slot] = 0
 	liveTasks--
 	sinceProgress = 0
 	// everything blocked may retry (e.g. a WaitGroup.Wait after our Done)
@@ -812,29 +816,36 @@ func chanIDSend[T any](ch chan<- T) uintptr { return *(*uintptr)(unsafe.Pointer(
 func chanIDRecv[T any](ch <-chan T) uintptr { return *(*uintptr)(unsafe.Pointer(&ch)) }
 
 // partner finds the longest-waiting blocked task registered for the opposite
-// operation on an unbuffered channel (Go serves waiters first come first served).
+// operation on an unbuffered channel (Go serves waiters first come first
+// served) and the index of its matching wait entry.
 //
 //go:norace
-func partner(id uintptr, dir int8) int32 {
-	best := int32(-1)
+func partner(id uintptr, dir int8) (int32, int32) {
+	best, bestK := int32(-1), int32(-1)
 	for i := int32(0); i < hiSlot; i++ {
-		if slotState[i] == stBlocked && slotWaitCh[i] == id && slotWaitDir[i] == dir {
-			if best < 0 || slotWaitSeq[i] < slotWaitSeq[best] {
-				best = i
+		if slotState[i] != stBlocked || i == curSlot {
+			continue
+		}
+		for k := int32(0); k < slotWaitN[i]; k++ {
+			if slotWaitCh[i][k] == id && slotWaitDir[i][k] == dir {
+				if best < 0 || slotWaitSeq[i] < slotWaitSeq[best] {
+					best, bestK = i, k
+				}
+				break
 			}
 		}
 	}
-	return best
+	return best, bestK
 }
 
-// commit tells a waiting partner to perform its side of a rendezvous now. The
-// partner does exactly one real channel operation and parks again; it does not
-// get the baton.
+// commit tells a waiting partner to perform its side of a rendezvous now (wait
+// entry k). The partner does exactly one real channel operation and parks
+// again; it does not get the baton.
 //
 //go:norace
-func commit(p int32) {
-	slotCommit[p] = true
-	slotWaitCh[p] = 0
+func commit(p, k int32) {
+	slotCommit[p] = k
+	slotWaitN[p] = 0
 	slotState[p] = stRunnable
 	stats.Rendezvous++
 	wake(p)
@@ -843,24 +854,49 @@ func commit(p int32) {
 //go:norace
 func registerWait(id uintptr, dir int8) int32 {
 	waitSeq++
-	slotWaitCh[curSlot] = id
-	slotWaitDir[curSlot] = dir
+	slotWaitCh[curSlot][0] = id
+	slotWaitDir[curSlot][0] = dir
+	slotWaitN[curSlot] = 1
 	slotWaitSeq[curSlot] = waitSeq
 	return curSlot
 }
 
-// committed is called by a task right after it was woken: true means it was
-// woken for a rendezvous (it does not hold the baton).
+//go:norace
+func registerWaitMore(id uintptr, dir int8, first bool) int32 {
+	if first {
+		waitSeq++
+		slotWaitN[curSlot] = 0
+		slotWaitSeq[curSlot] = waitSeq
+	}
+	k := slotWaitN[curSlot]
+	if k >= maxWait {
+		abortWhy = "select with more than 8 communication cases on unbuffered channels"
+		abort(AbortInternal)
+	}
+	slotWaitCh[curSlot][k] = id
+	slotWaitDir[curSlot][k] = dir
+	slotWaitN[curSlot] = k + 1
+	return curSlot
+}
+
+// committed is called by a task right after it was woken: >= 0 means it was
+// woken for a rendezvous on that wait entry (it does not hold the baton).
 //
 //go:norace
-func committed(me int32) bool {
-	if slotCommit[me] {
-		slotCommit[me] = false
-		return true
+func committedIdx(me int32) int32 {
+	k := slotCommit[me]
+	slotCommit[me] = -1
+	if k < 0 {
+		slotWaitN[me] = 0
 	}
-	slotWaitCh[me] = 0
-	return false
+	return k
 }
+
+//go:norace
+func committed(me int32) bool { return committedIdx(me) >= 0 }
+
+//go:norace
+func selPick(n int) int { return int(selRand.Uint64() % uint64(n)) }
 
 //go:norace
 func parkSelf(me int32) { park(me) }
@@ -885,8 +921,8 @@ func Send[T any](ch chan<- T, v T) {
 			// under the simulator, so the hand-off is arranged here and then
 			// performed for real by both sides
 			id := chanIDSend(ch)
-			if p := partner(id, dirRecv); p >= 0 {
-				commit(p)
+			if p, k := partner(id, dirRecv); p >= 0 {
+				commit(p, k)
 				ch <- v
 				afterSync(-10)
 				return
@@ -928,8 +964,8 @@ func Recv2[T any](ch <-chan T) (T, bool) {
 		me := int32(-1)
 		if ch != nil && cap(ch) == 0 {
 			id := chanIDRecv(ch)
-			if p := partner(id, dirSend); p >= 0 {
-				commit(p)
+			if p, k := partner(id, dirSend); p >= 0 {
+				commit(p, k)
 				v, ok := <-ch
 				afterSync(-11)
 				return v, ok
@@ -962,6 +998,185 @@ func ChanIter[T any](ch <-chan T) func(yield func(T) bool) {
 				return
 			}
 		}
+	}
+}
+
+// ---------------------------------------------------------------------------
+// select. The instrumenter rewrites
+//
+//	select { case v := <-a: A; case b <- x: B; default: D }
+//
+// into a switch over (*Sel).Do, which decides - from the run's PRNG, where Go
+// decides pseudo-randomly - which ready case fires, performs exactly that
+// communication for real (so the race detector sees the program's own edges)
+// and returns the case index (-1: default).
+// ---------------------------------------------------------------------------
+
+// SelCase is one communication case.
+type SelCase struct {
+	dir  int8
+	ch   reflect.Value
+	send reflect.Value
+}
+
+// RecvCase describes `case ... <-ch`.
+func RecvCase[T any](ch <-chan T) SelCase {
+	return SelCase{dir: dirRecv, ch: reflect.ValueOf(ch)}
+}
+
+// SendCase describes `case ch <- v`.
+func SendCase[T any](ch chan<- T, v T) SelCase {
+	return SelCase{dir: dirSend, ch: reflect.ValueOf(ch), send: reflect.ValueOf(&v).Elem()}
+}
+
+// Sel carries the outcome of one select.
+type Sel struct {
+	recv reflect.Value
+	ok   bool
+}
+
+// NewSel is spliced into the switch's init statement.
+func NewSel() *Sel { return &Sel{} }
+
+func (c *SelCase) isNil() bool { return !c.ch.IsValid() || c.ch.IsNil() }
+
+func (c *SelCase) reflectCase() reflect.SelectCase {
+	if c.isNil() {
+		// a nil channel never communicates; reflect wants a typed nil channel
+		return reflect.SelectCase{Dir: reflect.SelectRecv, Chan: reflect.ValueOf((chan struct{})(nil))}
+	}
+	if c.dir == dirSend {
+		return reflect.SelectCase{Dir: reflect.SelectSend, Chan: c.ch, Send: c.send}
+	}
+	return reflect.SelectCase{Dir: reflect.SelectRecv, Chan: c.ch}
+}
+
+// try performs case c without blocking; reports whether it communicated.
+func (s *Sel) try(c *SelCase) bool {
+	if c.isNil() {
+		return false
+	}
+	i, v, ok := reflect.Select([]reflect.SelectCase{c.reflectCase(), {Dir: reflect.SelectDefault}})
+	if i != 0 {
+		return false
+	}
+	if c.dir == dirRecv {
+		s.recv, s.ok = v, ok
+	}
+	return true
+}
+
+// force performs case c, blocking until the committed partner arrives.
+func (s *Sel) force(c *SelCase) {
+	_, v, ok := reflect.Select([]reflect.SelectCase{c.reflectCase()})
+	if c.dir == dirRecv {
+		s.recv, s.ok = v, ok
+	}
+}
+
+// Do executes the select.
+func (s *Sel) Do(hasDefault bool, cases ...SelCase) int {
+	if !Active() {
+		rc := make([]reflect.SelectCase, 0, len(cases)+1)
+		for i := range cases {
+			rc = append(rc, cases[i].reflectCase())
+		}
+		if hasDefault {
+			rc = append(rc, reflect.SelectCase{Dir: reflect.SelectDefault})
+		}
+		i, v, ok := reflect.Select(rc)
+		if i == len(cases) {
+			return -1
+		}
+		if cases[i].dir == dirRecv {
+			s.recv, s.ok = v, ok
+		}
+		return i
+	}
+	n := len(cases)
+	for {
+		if n > 0 {
+			// the cases are tried starting from a drawn one: which of several
+			// ready cases fires is the simulator's decision
+			start := selPick(n)
+			for d := 0; d < n; d++ {
+				i := (start + d) % n
+				if s.try(&cases[i]) {
+					afterSync(-17)
+					return i
+				}
+			}
+			// unbuffered channels: a blocked partner registered for the other side
+			for d := 0; d < n; d++ {
+				i := (start + d) % n
+				c := &cases[i]
+				if c.isNil() || c.ch.Cap() != 0 {
+					continue
+				}
+				other := int8(dirSend)
+				if c.dir == dirSend {
+					other = dirRecv
+				}
+				if p, k := partner(c.ch.Pointer(), other); p >= 0 {
+					commit(p, k)
+					s.force(c)
+					afterSync(-17)
+					return i
+				}
+			}
+		}
+		if hasDefault {
+			return -1
+		}
+		me := int32(-1)
+		first := true
+		var entry [maxWait]int // wait entry -> case index
+		ne := 0
+		for i := range cases {
+			c := &cases[i]
+			if c.isNil() || c.ch.Cap() != 0 {
+				continue
+			}
+			me = registerWaitMore(c.ch.Pointer(), c.dir, first)
+			first = false
+			entry[ne] = i
+			ne++
+		}
+		block(-17)
+		if me >= 0 {
+			if k := committedIdx(me); k >= 0 {
+				i := entry[k]
+				s.force(&cases[i])
+				parkSelf(me) // the other side goes on; wait for the baton
+				return i
+			}
+		}
+	}
+}
+
+// Received returns the value the chosen receive case got; ch only carries the type.
+func Received[T any](ch <-chan T, s *Sel) T {
+	v, _ := Received2(ch, s)
+	return v
+}
+
+// Received2 is Received for `v, ok := <-ch` cases.
+func Received2[T any](ch <-chan T, s *Sel) (T, bool) {
+	var zero T
+	if !s.recv.IsValid() {
+		return zero, s.ok
+	}
+	v, _ := s.recv.Interface().(T)
+	return v, s.ok
+}
+
+// BlockForever replaces an empty select.
+func BlockForever() {
+	if !Active() {
+		select {}
+	}
+	for {
+		block(-18)
 	}
 }
 
